@@ -549,6 +549,14 @@ def d5(chk, prog, spans):
     tb = Table(chk, "subdivide-chaining", "_split_targets pieces (symbolic start; spans giving 1..7 bins; float quotients tracked)", fi.loc(), fi.qn)
     model = Model()
     model.prims["skgenome.merge.merge"] = lambda it, table, *a, **k: table          # backed by D1-D3 (merge is checked there)
+
+    def b_divmod(a, b):
+        # exact integer / rational division of a literal span
+        if isinstance(a, Span) and isinstance(b, (int, float, Fr)) and not isinstance(b, bool):
+            q, r = divmod(Fr(a.v), Fr(str(b)) if isinstance(b, float) else Fr(b))
+            return int(q), (int(r) if r.denominator == 1 else r)
+        return divmod(a, b)
+    model.builtins["divmod"] = b_divmod
     for span, avg, min_size in spans:
         W.reset()
         it = Interp(prog, model)
@@ -585,6 +593,7 @@ def d5(chk, prog, spans):
             return DF({c: Vec([]) for c in table.cols if not c.startswith("__")}, 0)
         return DF({"chromosome": Vec(["chr1"]), "start": Vec([table.cols["start"].v[rows[0]]]), "end": Vec([table.cols["end"].v[rows[-1]]]), "gene": Vec(["G"])}, 1)
     m2 = Model()
+    m2.builtins["divmod"] = b_divmod
     m2.prims["skgenome.merge.merge"] = merging
     it = Interp(prog, m2)
     df = DF({"chromosome": Vec(["chr1", "chr1"]), "start": Vec([Coord(0), Coord(6)]), "end": Vec([Coord(6), Coord(12)]), "gene": Vec(["G", "G"])}, 2)
@@ -617,6 +626,8 @@ def run(chk):
 
 _M = "skgenome/merge.py"
 MUTANTS = [
+    dict(name="seeded C06h: bin count by divmod, halves rounded up", file="skgenome/subdivide.py", old="            nbins = int(round(span / avg_size)) or 1", new="            nbins, remainder = divmod(span, avg_size)\n            nbins = (int(nbins) + int(2 * remainder >= avg_size)) or 1"),
+    dict(name="twin: bin count by divmod, halves to even", expect="silent", file="skgenome/subdivide.py", old="            nbins = int(round(span / avg_size)) or 1", new="            nbins, remainder = divmod(span, avg_size)\n            nbins = int(nbins)\n            if 2 * remainder > avg_size or (2 * remainder == avg_size and nbins % 2 == 1):\n                nbins += 1\n            nbins = nbins or 1"),
     dict(name="seeded C12e: subtraction drops rows on chromosomes the subtrahend lacks", file="skgenome/subtract.py", old='by_ranges(other, table, "outer", True)', new='by_ranges(other, table, mode="outer", keep_empty=False)'),
     dict(name="seeded C12f: half quotients rounded up", file="skgenome/subdivide.py", old="            nbins = int(round(span / avg_size)) or 1", new="            nbins = max(1, int(span / avg_size + 0.5))"),
     dict(name="seeded C13f: abutting exclusions not fused and empty pieces kept", edits=[("skgenome/subtract.py", "    other = merge(other)\n", "    other = merge(other, bp=1)\n"), ("skgenome/subtract.py", "                if end > start:\n                    yield keeper._replace(start=start, end=end)\n                else:\n                    logging.debug(\"Discarding pair: (%d, %d)\", start, end)\n", "                yield keeper._replace(start=start, end=end)\n")]),
